@@ -79,6 +79,10 @@ pub enum Case {
         /// the extension's namespace declared on the <prototype> element instead of the root element
         #[serde(default)]
         nested_ns: bool,
+        /// a second extension name for the same URL (one that needs escaping in XML): the writer refuses it, or each
+        /// record comes back under the name it was written with
+        #[serde(default)]
+        twin: bool,
     },
 }
 
@@ -390,7 +394,7 @@ impl Check for C18 {
             let k = 1 + s.below(3) as usize;
             let proto_names = (0..k).map(|_| if s.chance(2, 3) { crate::adapt::STD_NAMES[s.below(20) as usize].0.to_string() } else { crate::gen::ext_name(s) }).collect();
             let suffix = if s.chance(1, 4) { Some(s.pick(&[".x", "\u{e9}", "-2.b", ".", "\u{b7}1"]).to_string()) } else { None };
-            Case::ProtoExt { proto_names, n: s.below(20) as u32, seed: s.u64(), suffix, nested_ns: s.chance(1, 5) }
+            Case::ProtoExt { proto_names, n: s.below(20) as u32, seed: s.u64(), suffix, nested_ns: s.chance(1, 5), twin: s.chance(1, 6) }
         } else {
             let program = small_program(s);
             let k = 1 + s.below(4) as usize;
@@ -503,7 +507,7 @@ impl Check for C18 {
                     }
                 }
             }
-            Case::ProtoExt { proto_names, n, seed, suffix, nested_ns } => {
+            Case::ProtoExt { proto_names, n, seed, suffix, nested_ns, twin } => {
                 let mut proto: Vec<Rec> = ["cartesianX", "cartesianY", "cartesianZ"].iter().map(|n| Rec { prefix: None, name: n.to_string(), ty: RType::Single { min: None, max: None } }).collect();
                 let mut used: Vec<String> = Vec::new();
                 for (i, name) in proto_names.iter().enumerate() {
@@ -529,16 +533,32 @@ impl Check for C18 {
                     pairs.push((format!(" xmlns:{PREFIX}=\"{URI}\""), String::new()));
                     pairs.push(("<prototype type=\"Structure\">".to_string(), format!("<prototype type=\"Structure\" xmlns:{PREFIX}=\"{URI}\">")));
                 }
+                let twin_active = *twin && suffix.is_none() && !*nested_ns;
+                if twin_active {
+                    for (k, r) in proto.iter_mut().filter(|r| r.prefix.is_some()).enumerate() {
+                        if k % 2 == 1 {
+                            r.prefix = Some("twin".into());
+                        }
+                    }
+                }
+                let uri = if twin_active { "urn:verif:foreign-extension?a=1&b=<2>" } else { URI };
                 let mut p = Program {
                     guid: "{c18}".into(),
-                    ops: vec![Op::Ext { prefix: PREFIX.into(), url: URI.into() }, Op::Cloud(prog::CloudSpec { guid: "{c}".into(), proto, n: *n, seed: *seed, nan_ok: true, meta: Default::default(), finalize: true, clear_limits: 0, rejects: vec![] })],
+                    ops: vec![Op::Ext { prefix: PREFIX.into(), url: uri.into() }, Op::Cloud(prog::CloudSpec { guid: "{c}".into(), proto, n: *n, seed: *seed, nan_ok: true, meta: Default::default(), finalize: true, clear_limits: 0, rejects: vec![] })],
                     end: if pairs.is_empty() { End::Finalize } else { End::FinalizeReplace(pairs) },
                 };
+                if twin_active {
+                    p.ops.insert(1, Op::Ext { prefix: "twin".into(), url: uri.into() });
+                }
                 let dev = MemDev::new();
                 let h = dev.handle();
                 let mut tr = Trace::default();
                 if let Err(pn) = guard(|| prog::exec(&p, dev, &mut tr)) {
                     v.fail(format!("writer panicked in {}: {pn}", tr.current));
+                    return v;
+                }
+                if twin_active && tr.error.as_ref().map(|(c, _)| c == "register_extension").unwrap_or(false) {
+                    v.nt("second_name_for_one_extension_url_refused");
                     return v;
                 }
                 if let Some((c, e)) = &tr.error {
